@@ -117,7 +117,7 @@ func (w *pollWorld) produce(t vev.FailTB, i int, upTo int) {
 // TestC20Progress: single polling rounds report exactly the store's advancement.
 func TestC20Progress(t *testing.T) {
 	rapid.Check(t, func(t *rapid.T) {
-		ctx, cancel := context.WithTimeout(context.Background(), 60*time.Second)
+		ctx, cancel := context.WithTimeout(context.Background(), 600*time.Second)
 		defer cancel()
 		nPeers := rapid.IntRange(1, 3).Draw(t, "peers")
 		total := rapid.IntRange(1, 12).Draw(t, "total")
@@ -176,7 +176,7 @@ func TestC20Progress(t *testing.T) {
 func TestC20ClosedLoop(t *testing.T) {
 	votel.Install()
 	rapid.Check(t, func(t *rapid.T) {
-		ctx, cancel := context.WithTimeout(context.Background(), 120*time.Second)
+		ctx, cancel := context.WithTimeout(context.Background(), 900*time.Second)
 		defer cancel()
 		minI := time.Duration(rapid.SampledFrom([]int{1, 2, 5}).Draw(t, "minSec")) * time.Second
 		maxI := time.Duration(rapid.SampledFrom([]int{60, 120, 600}).Draw(t, "maxSec")) * time.Second
@@ -323,7 +323,7 @@ func TestC20ClosedLoop(t *testing.T) {
 					reqRelease <- struct{}{}
 				case err := <-loopDone:
 					vev.Fail(t, c20, "C20/loop/exited", "the polling loop exited: %v", err)
-				case <-time.After(3 * time.Second):
+				case <-time.After(map[bool]time.Duration{true: 3 * time.Second, false: 60 * time.Second}[r == 0 && attempt < 5]):
 					if r == 0 && attempt < 5 {
 						// the initial timer was armed after the clock moved: move it again
 						w.clk.Add(wait)
